@@ -232,6 +232,9 @@ func c02Run(id int, c c02Case) (in string, out string) {
 	}
 	mr := r.MemoryRead(ctx, c.seq)
 	mw := r.MemoryWrite(ctx, c.seq)
+	if !panicked && c.fwd == nil {
+		o += c02TaggedRead(r, c, exe, rerr, mr, mw)
+	}
 	gline := fmt.Sprintf("G %d %s | rr=[%s] wr=[%s] mr=[%s] mw=[%s] ty=Gen.InstructionType.%s", id, g,
 		regList(r.ReadRegisters()), regList(r.WriteRegisters()), hx.Join32(mr), hx.Join32(mw), r.InstructionType().String())
 	// store addresses the property speaks of = keys of MemoryChanges must be what MemoryWrite declares
@@ -383,4 +386,49 @@ func c02Stream(dir string, seed int64, tier string) {
 		}
 		one(m.name, m.sh, p, hx.Pick32(r), hx.Pick32(r), hx.Pick32(r), label, fwd)
 	}
+}
+
+// c02TaggedRead: the same instruction on a context with the rename table ON, run with a sequence id S: every
+// register holds, in the table, an OLDER write (tag < S) of the plain context's value over a garbage committed value,
+// and a YOUNGER write (tag > S) of another garbage value. Every operand read of every instruction must ignore the
+// younger write, so outcome and addresses must equal the plain run's (C02 with C15's read rule). "" when equal.
+func c02TaggedRead(r risc.InstructionRunner, c c02Case, exe risc.Execution, rerr error, mr, mw []int32) string {
+	const S = 5000
+	ctx := risc.NewContext(false, 16, true)
+	for k := 0; k < 32; k++ {
+		ctx.Registers[risc.RegisterType(k)] = int32(0x0badc0de) + int32(k)
+	}
+	ctx.Registers[risc.Zero] = 0
+	ctx.InitRAT()
+	for k := 1; k < 32; k++ {
+		reg := risc.RegisterType(k)
+		ctx.TransactionRATWrite(risc.Execution{RegisterChange: true, Register: reg, RegisterValue: c.regs[reg]}, S-1000+int32(k))
+		ctx.TransactionRATWrite(risc.Execution{RegisterChange: true, Register: reg, RegisterValue: int32(0x7e57) * int32(k+3)}, S+4+int32(k))
+	}
+	var exe2 risc.Execution
+	var err2 error
+	panicked := false
+	func() {
+		defer func() {
+			if rec := recover(); rec != nil {
+				panicked = true
+			}
+		}()
+		exe2, err2 = r.Run(ctx, c.labels, c.pc, c.mem, S)
+	}()
+	if panicked {
+		return " tagged-read=DIFF:panic"
+	}
+	if (err2 != nil) != (rerr != nil) {
+		return " tagged-read=DIFF:error-differs"
+	}
+	if rerr == nil && (exe2.RegisterChange != exe.RegisterChange || exe2.Register != exe.Register || exe2.RegisterValue != exe.RegisterValue ||
+		exe2.MemoryChange != exe.MemoryChange || hx.MemString(exe2.MemoryChanges) != hx.MemString(exe.MemoryChanges) ||
+		exe2.PcChange != exe.PcChange || exe2.NextPc != exe.NextPc || exe2.Return != exe.Return) {
+		return fmt.Sprintf(" tagged-read=DIFF:value=%d,mem=[%s],next=%d", exe2.RegisterValue, hx.MemString(exe2.MemoryChanges), exe2.NextPc)
+	}
+	if hx.Join32(r.MemoryRead(ctx, S)) != hx.Join32(mr) || hx.Join32(r.MemoryWrite(ctx, S)) != hx.Join32(mw) {
+		return " tagged-read=DIFF:addresses"
+	}
+	return ""
 }
